@@ -40,23 +40,34 @@ class Prop(PropBase):
                 n = rng.choice([1, 2, 3, l.nblk - 1, l.nblk, l.nblk + 1, 40])
                 cfg = scen.rand_cfg(rng, mode=3, nblk=n, wait=rng.randrange(2), dense=0, pktcb=0)
                 scn_all.append(scen.mixed_scenario(rng, self.L, t, f'c15_custom_{t}_{r}_n{n}', cfg, npk=rng.choice([4, 7]), malformed_p=0.1, badblk_p=0.05))
-                # FIXED: high rpm so that N is small enough to be crossed: 2400 rpm -> ~450 blocks (single)
-                for rpm, dual in ((rng.choice([2400, 3000, 6000]), rng.random() < 0.5), (rng.choice([1200, 600]), False)) if tier != 'quick' or t in ('RS16', 'RSHELIOS_16P', 'RS32', 'RS128') else ((6000, rng.random() < 0.5),):
+                # FIXED: rpm high enough that one frame (N blocks) fits a short stream: 6000 rpm -> N ~ 180,
+                # 30000 -> 36, 60000 -> 18 (x2 dual, /2 16-beam single); two DIFOP phases per scenario
+                nfix = 2 if tier == 'quick' else 4
+                for q in range(nfix):
                     cfg = scen.rand_cfg(rng, mode=2, wait=rng.randrange(2), dense=0, pktcb=0)
-                    s = scen.Scn(f'c15_fixed_{t}_{r}_rpm{rpm}_{"dual" if dual else "single"}')
+                    rpm1, rpm2 = rng.sample([6000, 30000, 60000, 12000, 65535], 2)
+                    d1 = rng.random() < 0.5
+                    d2 = d1 if rng.random() < 0.5 else (not d1)
+                    if rng.random() < 0.3:
+                        rpm2 = rpm1          # pure return-mode change (or a plain repeat)
+                    s = scen.Scn(f'c15_fixed_{t}_{r}_{q}_rpm{rpm1}{"d" if d1 else "s"}_rpm{rpm2}{"d" if d2 else "s"}')
                     s.drv(0, l, cfg)
-                    ms = scen.MechStream(rng, l, dual=dual)
-                    blocks_needed = int(1.0 / ((rpm // 60) * 55.5e-6)) * (2 if dual else 1) + 3 * l.nblk
-                    if rpm <= 1200 and t not in ('RS16', 'RSHELIOS_16P'):
-                        blocks_needed = min(blocks_needed, 40 * l.nblk)
-                    npk = min(blocks_needed // l.nblk + 2, 190)
-                    at = rng.randrange(0, 3)
-                    for k in range(npk):
-                        if k == at:
-                            s.pkt(0, l.difop(dual=dual, rpm=rpm), tick=0)
-                        if k == npk // 2 and rng.random() < 0.5:
-                            s.pkt(0, l.difop(dual=dual, rpm=rng.choice([rpm, 6000])), tick=0)
-                        s.pkt(0, ms.msop(dist=lambda r: 0, gap_prob=0.0), tick=0)
+                    ms = scen.MechStream(rng, l, dual=d1)
+                    def nblocks(rpm, dual):
+                        n = int(1.0 / ((rpm // 60) * 55.5e-6))
+                        return n * 2 if dual else n
+                    n1 = nblocks(rpm1, d1) * 3 // l.nblk + 3
+                    n2 = nblocks(rpm2, d2) * 3 // l.nblk + 3
+                    pre = rng.randrange(0, 3)
+                    for k in range(pre):
+                        s.pkt(0, ms.msop(dist=lambda r_: 0, gap_prob=0.0), tick=0)
+                    s.pkt(0, l.difop(dual=d1, rpm=rpm1), tick=0)
+                    for k in range(min(n1, 150)):
+                        s.pkt(0, ms.msop(dist=lambda r_: 0, gap_prob=0.0), tick=0)
+                    s.pkt(0, l.difop(dual=d2, rpm=rpm2), tick=0)
+                    ms.dual = d2
+                    for k in range(min(n2, 150)):
+                        s.pkt(0, ms.msop(dist=lambda r_: 0, gap_prob=0.0), tick=0)
                     scn_all.append(s.text())
         out.append(('drv', '\n'.join(scn_all) + '\n'))
         return out
